@@ -154,6 +154,153 @@ def check_raises(ctx, R="C10.raises"):
                 ctx.finding(R, a, f"{q}: {norm_text(a, 60)}", f"compiler `{q}` asserts `{norm_text(a.test, 60)}`; if user input can falsify it compilation escapes with AssertionError (not in the list of grammar-guaranteed conditions)")
 
 
+
+def check_group_values(ctx, R="C10.groups"):
+    ctx.rule(
+        R,
+        "what a bracketed group evaluates to: in a pegen grammar an alternative without an action yields its single item, or -- when it "
+        "has several items -- the LIST of all of them; so a variable bound to an optional / parenthesised group with several items and no "
+        "action (`n=['as' name]`) holds a list, and an action that hands such a variable to a node constructor or helper (instead of "
+        "indexing it or only testing it) builds a node with a list where a string / node is expected: compiling it fails with TypeError",
+    )
+    from pegen import grammar as gr
+
+    g = ctx.grammar
+
+    def counted(items):
+        return [i for i in items if not isinstance(i.item if isinstance(i, gr.NamedItem) else i, (gr.PositiveLookahead, gr.NegativeLookahead, gr.Cut))]
+
+    def list_valued(node):
+        """node is an optional / plain group all of whose alternatives have several items and no action"""
+        if isinstance(node, gr.Opt):
+            node = node.node
+        if isinstance(node, gr.Group):
+            node = node.rhs
+        if not isinstance(node, gr.Rhs):
+            return False
+        return bool(node.alts) and all(a.action is None and len(counted(a.items)) > 1 for a in node.alts)
+
+    n = 0
+    for a in g.alts:
+        if a.action is None:
+            continue
+        for it in a.alt.items:
+            if not (isinstance(it, gr.NamedItem) and it.name and isinstance(it.item, (gr.Opt, gr.Group))):
+                continue
+            n += 1
+            if not list_valued(it.item):
+                continue
+            var = it.name
+            handed = []
+            for c in ast.walk(a.action):
+                if isinstance(c, ast.Call):
+                    for x in list(c.args) + [k.value for k in c.keywords]:
+                        if isinstance(x, ast.Name) and x.id == var:
+                            handed.append(c)
+            if handed:
+                ctx.finding(
+                    R,
+                    GRAMFILE,
+                    f"{a.rule}: group variable {var} handed on as a value",
+                    f"grammar rule {a.rule} (line ~{g.line_of_rule(a.rule)}): `{var}` is bound to the group `{str(it.item)[:50]}`, which has several items and no action and therefore evaluates to a list "
+                    f"of them, and the action passes it on (`{norm_text(handed[0], 60)}`): the node gets a list where a name / node is expected and compiling the statement fails with TypeError",
+                    qualname=a.rule,
+                )
+            else:
+                ctx.ok(R, GRAMFILE, f"{a.rule}: list-valued group `{var}` is only indexed / tested by its action", qualname=a.rule)
+    ctx.floor(R, n, 60, "variables bound to optional or parenthesised groups in alternatives with actions")
+
+
+
+# AST-valued fields of the Python node classes the compiler has visitors for
+PY_CHILD_FIELDS = {
+    "Return": {"value"},
+    "Yield": {"value"},
+    "YieldFrom": {"value"},
+    "Call": {"func", "args", "keywords"},
+    "ClassDef": {"bases", "keywords", "body", "decorator_list"},
+}
+# helpers that only inspect a subtree (they embed nothing in the output)
+INSPECTING_CALLS = {"LocalFinder.findIn", "len", "isinstance", "bool", "str", "repr", "type"}
+
+
+def check_children(ctx, R="C10.children"):
+    ctx.rule(
+        R,
+        "children are compiled before they are re-embedded: in a visit_<Class> method of the Scenic-to-Python transformer every use of an "
+        "AST-valued field `node.<field>` either goes through self.<method>(...) (self.visit, self.generic_visit, a helper method, or a "
+        "local helper that visits its argument), or only inspects the child (a test, a comparison, an attribute of it, an iteration whose "
+        "elements are then visited, an inspecting helper); a child placed into the output unvisited still contains Scenic nodes, and "
+        "compile() then fails with TypeError for programs that use Scenic syntax in that position",
+    )
+    model = ctx.model
+    am = model.module("scenic.syntax.ast")
+    fields = {}
+    for q, c in am.classes.items():
+        fs = set()
+        for st in c.body:
+            if isinstance(st, ast.AnnAssign) and isinstance(st.target, ast.Name):
+                t = unparse(st.annotation)
+                if "ast." in t or "AST" in t or '"' in t or "'" in t:
+                    fs.add(st.target.id)
+        fields[q] = fs
+    ci = model.cls(CO, "ScenicToPythonTransformer")
+    n = 0
+    for mn, fn in ci.methods.items():
+        if not mn.startswith("visit_") or len(fn.args.args) < 2:
+            continue
+        fs = fields.get(mn[6:]) or PY_CHILD_FIELDS.get(mn[6:])
+        if not fs:
+            continue
+        npar = fn.args.args[1].arg
+        # local helpers that pass a parameter of theirs to self.visit
+        visiting_locals = set()
+        for f in ast.walk(fn):
+            if isinstance(f, ast.FunctionDef) and f is not fn:
+                ps = {a.arg for a in f.args.args}
+                if any(isinstance(c, ast.Call) and unparse(c.func) in ("self.visit", "self.generic_visit") and c.args and isinstance(c.args[0], ast.Name) and c.args[0].id in ps for c in ast.walk(f)):
+                    visiting_locals.add(f.name)
+        for x in ast.walk(fn):
+            if not (isinstance(x, ast.Attribute) and isinstance(x.value, ast.Name) and x.value.id == npar and isinstance(x.ctx, ast.Load) and x.attr in fs):
+                continue
+            n += 1
+            ok = False
+            ch = x
+            for a in ancestors(x):
+                if a is fn:
+                    break
+                if isinstance(a, ast.Call):
+                    in_args = any(ch is y for y in list(a.args) + [k.value for k in a.keywords])
+                    cn = dotted(a.func) or ""
+                    if in_args and (cn.startswith("self.") or cn in visiting_locals or cn in INSPECTING_CALLS):
+                        ok = True
+                        break
+                if isinstance(a, (ast.If, ast.While, ast.Assert, ast.IfExp)) and any(x is y for y in ast.walk(a.test)):
+                    ok = True
+                    break
+                if isinstance(a, ast.Attribute) and a.value is ch:
+                    ok = True  # an attribute of the child (its name, its location ...)
+                    break
+                if isinstance(a, (ast.For, ast.comprehension)) and any(x is y for y in ast.walk(a.iter)):
+                    ok = True  # iterated: the elements are what is used (and checked where they are used)
+                    break
+                if isinstance(a, (ast.Compare, ast.JoinedStr)):
+                    ok = True
+                    break
+                ch = a
+            if ok:
+                ctx.ok(R, x, f"{mn}: `{unparse(x)}` is visited or only inspected")
+            else:
+                ctx.finding(
+                    R,
+                    x,
+                    f"{mn}: unvisited child {unparse(x)}",
+                    f"ScenicToPythonTransformer.{mn} uses `{unparse(x)}` in `{norm_text(lib.statement_of(x), 70)}` without passing it through self.visit: the child is placed into the compiled "
+                    f"tree as it is, so Scenic syntax inside it (e.g. `3 deg`, `new Object`) reaches compile() and fails with TypeError",
+                )
+    ctx.floor(R, n, 120, "uses of AST-valued fields in the transformer's visitors")
+
+
 def check_tokeninfo(ctx, R="C10.errargs"):
     ctx.rule(
         R,
@@ -447,7 +594,8 @@ def check_frontend_partial(ctx, R="C10.partial"):
         "the tokenizer lets through (`01`, `1__0`), is called only under a handler for both that reports a syntax error; (c) literal values "
         "are concatenated only after a bytes-vs-str test that raises a syntax error; (d) every Scenic node class that only the "
         "PropositionTransformer compiles is rejected with a syntax error by the main transformer's generic_visit (it can be nested inside an "
-        "ordinary expression); (e) a parenthesised temporal expression may be followed by every binary connective of the temporal grammar",
+        "ordinary expression); (e) a parenthesised temporal expression may be followed by every binary connective of the temporal grammar; "
+        "(b') token text is never converted with float() / int() / complex() directly; (f) a try statement built by the compiler has an else block only together with handlers",
     )
     g = ctx.grammar
     sh = g.subheader_tree()
@@ -487,6 +635,76 @@ def check_frontend_partial(ctx, R="C10.partial"):
         else:
             where = f"rule {a.rule}" if a is not None else "a parser helper"
             ctx.finding(R, GRAMFILE, f"unprotected literal_eval in {where}", f"{where} evaluates `{norm_text(c, 50)}` without converting SyntaxError / ValueError: a literal the tokenizer accepts but Python rejects (`01`, `1__0`) escapes as a raw Python error instead of a located Scenic syntax error", qualname=a.rule if a is not None else "subheader")
+    # (b') the same conversions spelled float(x.string) / int(x.string) / complex(x.string): they raise ValueError for number
+    # tokens Python accepts in another notation (`0x1`, `1j`, `1_0` is fine, `0o7`)
+    nconv = 0
+    conv_sites = [(None, c) for c in ast.walk(sh) if isinstance(c, ast.Call)]
+    for a in g.alts:
+        if a.action is not None:
+            conv_sites.extend((a, c) for c in ast.walk(a.action) if isinstance(c, ast.Call))
+    for a, c in conv_sites:
+        if not (isinstance(c.func, ast.Name) and c.func.id in ("float", "int", "complex") and len(c.args) == 1):
+            continue
+        arg = c.args[0]
+        if not (isinstance(arg, ast.Attribute) and arg.attr == "string"):
+            continue
+        nconv += 1
+        h = protected(c, [("ValueError", "Exception", "BaseException")]) if a is None else None
+        if h is not None:
+            continue
+        where = f"rule {a.rule}" if a is not None else "a parser helper"
+        ctx.finding(
+            R,
+            GRAMFILE,
+            f"token text converted with {c.func.id}() in {where}",
+            f"{where} converts the text of a token with `{norm_text(c, 40)}`: a NUMBER token Python accepts in another notation (`0x1`, `0o7`, `1j`) makes it raise ValueError, "
+            f"which escapes the front end instead of a located syntax error (use the protected literal evaluation)",
+            qualname=a.rule if a is not None else "subheader",
+        )
+    if nconv == 0:
+        ctx.ok(R, GRAMFILE, "no grammar action converts token text with float() / int() / complex() directly", qualname="grammar actions")
+    # (f) a try statement the compiler builds is one compile() accepts: `else` needs handlers (and handlers or `finally` must
+    # exist); the emptiness of the emitted lists is that of the source lists they are computed from
+    comp = ctx.model.module(CO)
+
+    def source_list(e, fn_):
+        for _ in range(4):
+            if isinstance(e, ast.Name):
+                v = lib.local_value(fn_, e.id)
+                if v is None:
+                    break
+                e = v
+            elif isinstance(e, ast.ListComp) and len(e.generators) == 1 and not e.generators[0].ifs:
+                e = e.generators[0].iter
+            elif isinstance(e, ast.Call) and unparse(e.func) in ("self.visit", "list", "tuple") and len(e.args) == 1:
+                e = e.args[0]
+            else:
+                break
+        return e
+
+    ntry = 0
+    for q, fn_ in comp.functions.items():
+        for c in walk_local(fn_):
+            if not (isinstance(c, ast.Call) and dotted(c.func) == "ast.Try" and len(c.args) >= 4):
+                continue
+            ntry += 1
+            handlers, orelse = source_list(c.args[1], fn_), source_list(c.args[2], fn_)
+            if isinstance(orelse, (ast.List, ast.Tuple)) and not orelse.elts:
+                ctx.ok(R, c, f"{q}: the emitted try statement has no else block")
+                continue
+            env = {unparse(handlers): False, unparse(orelse): True}
+            blocked = any((lambda v: v is not None and v != p_)(lib.tri_eval(t_, env)) for t_, p_ in lib.guard_tests(c, fn_))
+            if blocked:
+                ctx.ok(R, c, f"{q}: an `else` block is emitted only together with handlers")
+            else:
+                ctx.finding(
+                    R,
+                    c,
+                    f"{q}: ast.Try with else but possibly no handlers",
+                    f"{q} builds `{norm_text(c, 60)}` on a path where `{unparse(orelse)}` may be non-empty while `{unparse(handlers)}` is empty: compile() rejects a try statement with "
+                    f"`else` but no `except` (ValueError), so e.g. a try-interrupt statement with `else` and `finally` but no `except` escapes the front end with an internal error",
+                )
+    ctx.floor(R, ntry, 1, "ast.Try constructions in the compiler")
     # (c)
     for fn in [f for f in ast.walk(sh) if isinstance(f, ast.FunctionDef)]:
         augs = [n for n in ast.walk(fn) if isinstance(n, ast.AugAssign) and isinstance(n.op, ast.Add) and isinstance(n.value, (ast.Name, ast.Call))]
@@ -823,6 +1041,8 @@ def check(ctx):
     ctx.run(check_visitors)
     ctx.run(check_raises)
     ctx.run(check_tokeninfo)
+    ctx.run(check_group_values)
+    ctx.run(check_children)
     ctx.run(check_nullable_loops)
     ctx.run(check_deactivate)
     if ctx.tier == "thorough":
